@@ -160,6 +160,8 @@ theorem iter_tables_wf :
 theorem bvs_other_method_writes_eq : bvs_other_method_writes = [] := by decide
 theorem bvs_init_iterator_attrs_eq : bvs_init_iterator_attrs = [] := by decide
 theorem seq_method_writes_eq : seq_method_writes = [] := by decide
+/-- `self.indices` (what `iter(self.sampler)` restarts from) is a list, not a one-shot iterator -/
+theorem seq_init_iterator_attrs_eq : seq_init_iterator_attrs = [] := by decide
 
 /-- data flow of `DistributedSequentialSampler.__init__` (locals inlined): communication defaults → volume limit →
 `chunks` → this rank's chunk; the limit is applied to the list that is then distributed over the ranks (`rankVols`:
